@@ -22,6 +22,7 @@ import (
 	"golang.org/x/net/http2"
 	"golang.org/x/net/http2/h2c"
 	"google.golang.org/protobuf/proto"
+	"google.golang.org/protobuf/types/known/anypb"
 	"pgregory.net/rapid"
 )
 
@@ -61,6 +62,10 @@ type vfRawReq struct {
 	// ListLength: the header list ends with a Content-Length entry that states the exact size of the body (only drawn
 	// for bodies without compression, whose size is known beforehand)
 	ListLength bool `json:"listContentLength,omitempty"`
+	// RPC: the kind of call the client was about to make when the raw request takes its place: 0 unary, 1 client
+	// stream, 2 server stream, 3 half-duplex bidi, 4 full-duplex bidi (whose own request body stays open until the
+	// server has answered)
+	RPC int `json:"rpc,omitempty"`
 }
 
 // vfKnownBodyLen: the number of body bytes of a raw request without compressed parts (-1: not known beforehand).
@@ -233,15 +238,32 @@ func vfRawReqCheck(c vfRawReq) error {
 	host, portStr, _ := net.SplitHostPort(vfRecs[idx].addr)
 	var port uint32
 	_, _ = fmt.Sscanf(portStr, "%d", &port)
-	anyReq, err := vfAny(&conformancev1.UnaryRequest{RequestData: []byte("ORIGINAL-REQUEST-DATA")})
-	if err != nil {
-		return nil
+	original := []byte("ORIGINAL-REQUEST-DATA")
+	kinds := []struct {
+		method string
+		stream conformancev1.StreamType
+		msgs   []proto.Message
+	}{
+		{"Unary", conformancev1.StreamType_STREAM_TYPE_UNARY, []proto.Message{&conformancev1.UnaryRequest{RequestData: original}}},
+		{"ClientStream", conformancev1.StreamType_STREAM_TYPE_CLIENT_STREAM, []proto.Message{&conformancev1.ClientStreamRequest{RequestData: original}, &conformancev1.ClientStreamRequest{RequestData: original}}},
+		{"ServerStream", conformancev1.StreamType_STREAM_TYPE_SERVER_STREAM, []proto.Message{&conformancev1.ServerStreamRequest{RequestData: original}}},
+		{"BidiStream", conformancev1.StreamType_STREAM_TYPE_HALF_DUPLEX_BIDI_STREAM, []proto.Message{&conformancev1.BidiStreamRequest{RequestData: original}, &conformancev1.BidiStreamRequest{RequestData: original}}},
+		{"BidiStream", conformancev1.StreamType_STREAM_TYPE_FULL_DUPLEX_BIDI_STREAM, []proto.Message{&conformancev1.BidiStreamRequest{RequestData: original, FullDuplex: true}, &conformancev1.BidiStreamRequest{RequestData: original}}},
+	}
+	kind := kinds[c.RPC%len(kinds)]
+	var anyReq []*anypb.Any
+	for _, m := range kind.msgs {
+		a, err := anypb.New(m)
+		if err != nil {
+			return nil
+		}
+		anyReq = append(anyReq, a)
 	}
 	req := &conformancev1.ClientCompatRequest{
 		TestName: "verif/c17/" + id, HttpVersion: version, Protocol: conformancev1.Protocol_PROTOCOL_CONNECT,
 		Codec: conformancev1.Codec_CODEC_PROTO, Compression: conformancev1.Compression_COMPRESSION_IDENTITY,
-		Host: host, Port: port, Service: proto.String("connectrpc.conformance.v1.ConformanceService"), Method: proto.String("Unary"),
-		StreamType: conformancev1.StreamType_STREAM_TYPE_UNARY, RequestMessages: anyReq, RawRequest: raw,
+		Host: host, Port: port, Service: proto.String("connectrpc.conformance.v1.ConformanceService"), Method: proto.String(kind.method),
+		StreamType: kind.stream, RequestMessages: anyReq, RawRequest: raw,
 		RequestHeaders: []*conformancev1.Header{{Name: "X-Original-Header", Value: []string{"original"}}},
 	}
 	resp, rerr := vfRunClient(req)
@@ -464,6 +486,9 @@ func TestVerifC17RawRequest(t *testing.T) {
 				c.Headers = append(c.Headers, h)
 			}
 			c.ListLength = rapid.IntRange(0, 2).Draw(t, "listLength") == 0
+			if rapid.IntRange(0, 2).Draw(t, "otherRPC") == 0 {
+				c.RPC = rapid.IntRange(1, 4).Draw(t, "rpc")
+			}
 			c.Body = rapid.SampledFrom([]string{"none", "unary", "stream"}).Draw(t, "body")
 			switch c.Body {
 			case "unary":
